@@ -1,6 +1,10 @@
 package harness
 
 import (
+	"github.com/huderlem/poryscript/emitter"
+	"github.com/huderlem/poryscript/lexer"
+	"github.com/huderlem/poryscript/parser"
+
 	"crypto/sha256"
 	"encoding/json"
 	"fmt"
@@ -52,6 +56,12 @@ func checkC17Repeat(c *C17Repeat) *Violation {
 	for i := 1; i < 5; i++ {
 		if again := c.Comp.run(); again != first {
 			return viol("not-repeatable", "compilation %d of the same input with the same options differs from the first\n--- first\n%s\n--- later\n%s\n--- options %+v\n--- source\n%s", i+1, clip(first, 3000), clip(again, 3000), c.Comp.Opts, c.Comp.Src)
+		}
+	}
+	// one parse, several emits: emitting must not change the parsed program
+	if !c.Comp.Opts.Lint {
+		if v := emitTwice(&c.Comp); v != nil {
+			return v
 		}
 	}
 	chunks := strings.Count(first, ":\n")
@@ -115,6 +125,32 @@ func c17Program(t *rapid.T) string {
 
 func genC17Repeat(t *rapid.T) *C17Repeat {
 	return &C17Repeat{Comp: Comp{Src: c17Program(t), Opts: c17Opts(t)}}
+}
+
+// emitTwice parses once and emits the same program with optimize off, on and off again;
+// each output must equal the output of a separate compilation with that setting.
+func emitTwice(c *Comp) (v *Violation) {
+	defer func() {
+		if r := recover(); r != nil {
+			v = nil // panics are C18's subject
+		}
+	}()
+	o := c.Opts
+	p := parser.New(lexer.New(c.Src), toCC(o.Auto), fontPathFor(o), o.FontID, o.MaxLen, o.Switches)
+	prog, err := p.ParseProgram()
+	if err != nil {
+		return nil
+	}
+	for i, opt := range []bool{false, true, false} {
+		out, err := emitter.New(prog, opt, o.LineMarkers, o.Path).Emit()
+		o2 := o
+		o2.Optimize = opt
+		fresh := Compile(c.Src, o2)
+		if (err == nil) != (fresh.Err == nil) || (err == nil && out != fresh.Out) {
+			return viol("emit-changes-program", "emit #%d (optimize=%v) of one parsed program differs from a separate compilation with the same options\n--- emitted\n%s\n--- separate compilation\n%s\n--- source\n%s", i+1, opt, clip(out, 3000), clip(fresh.Out, 3000), c.Src)
+		}
+	}
+	return nil
 }
 
 // ---- (2) history independence: the same compilation run first in a fresh process ----
@@ -209,7 +245,9 @@ func checkC17History(c *C17History) *Violation {
 			failing = true
 		}
 	}
-	st.Eval(c17HistorySrc(c), len(optsets) >= 2 && failing, func() any { return fmt.Sprintf("history of %d compilations over %d option sets", len(c.History), len(optsets)) }, "history")
+	st.Eval(c17HistorySrc(c), len(optsets) >= 2 && failing, func() any {
+		return fmt.Sprintf("history of %d compilations over %d option sets", len(c.History), len(optsets))
+	}, "history")
 	st.Add("history_compilations", int64(len(c.History)))
 	return nil
 }
@@ -363,7 +401,7 @@ func init() {
 	register("C17", "TestC17_Context", checkC17Context, c17ContextSrc)
 }
 
-const c17Rule = "(1) repeatability: whole files (valid, and made invalid by deleting / replacing a token or truncating) under drawn option sets (optimize, line markers, switches, CLI line length, several font configs, unknown font ids whose error lists the font table, lint mode) are compiled 5 times in one process: byte-identical outputs / errors; (2) history independence: a history of 2-12 compilations drawn from a pool of 2-5 (program, options) pairs is run in one process and every result must equal the result of the same compilation run FIRST in a fresh process (the test binary re-executes itself); (3) context independence: every top-level statement of a file is also compiled alone (with the constants before it); its code, with hoisted labels renamed by content, must occur as one contiguous run in the output of the whole file and every hoisted block it defines must exist there with the same content. non-trivial = (1) >= 3 labelled blocks or an error, (2) >= 2 option sets and a failing compilation in the history, (3) >= 3 statements with hoisted data; distinct by input"
+const c17Rule = "(1) repeatability: whole files (valid, and made invalid by deleting / replacing a token or truncating) under drawn option sets (optimize, line markers, switches, CLI line length, several font configs, unknown font ids whose error lists the font table, lint mode) are compiled 5 times in one process: byte-identical outputs / errors; one parsed program emitted three times (optimize off, on, off) gives the outputs of separate compilations; (2) history independence: a history of 2-12 compilations drawn from a pool of 2-5 (program, options) pairs is run in one process and every result must equal the result of the same compilation run FIRST in a fresh process (the test binary re-executes itself); (3) context independence: every top-level statement of a file is also compiled alone (with the constants before it); its code, with hoisted labels renamed by content, must occur as one contiguous run in the output of the whole file and every hoisted block it defines must exist there with the same content. non-trivial = (1) >= 3 labelled blocks or an error, (2) >= 2 option sets and a failing compilation in the history, (3) >= 3 statements with hoisted data; distinct by input"
 
 func TestC17_Regress(t *testing.T) { runRegress(t, "C17") }
 
